@@ -6,8 +6,11 @@ require (
 	github.com/AdguardTeam/AdGuardDNS v0.0.0
 	github.com/AdguardTeam/AdGuardDNS/internal/dnsserver v0.0.0
 	github.com/AdguardTeam/golibs v0.30.4
+	github.com/ameshkov/dnscrypt/v2 v2.3.0
+	github.com/ameshkov/dnsstamps v1.0.3
 	github.com/c2h5oh/datasize v0.0.0-20231215233829-aa82cc1e6500
 	github.com/miekg/dns v1.1.62
+	github.com/oschwald/maxminddb-golang v1.13.1
 	github.com/prometheus/client_golang v1.20.5
 	github.com/quic-go/quic-go v0.48.2
 	golang.org/x/net v0.32.0
@@ -20,8 +23,6 @@ require (
 	github.com/AdguardTeam/urlfilter v0.20.0 // indirect
 	github.com/aead/chacha20 v0.0.0-20180709150244-8b13a72661da // indirect
 	github.com/aead/poly1305 v0.0.0-20180717145839-3fee0db0b635 // indirect
-	github.com/ameshkov/dnscrypt/v2 v2.3.0 // indirect
-	github.com/ameshkov/dnsstamps v1.0.3 // indirect
 	github.com/axiomhq/hyperloglog v0.2.0 // indirect
 	github.com/beorn7/perks v1.0.1 // indirect
 	github.com/bluele/gcache v0.0.2 // indirect
@@ -34,7 +35,6 @@ require (
 	github.com/google/renameio/v2 v2.0.0 // indirect
 	github.com/klauspost/compress v1.17.11 // indirect
 	github.com/munnerz/goautoneg v0.0.0-20191010083416-a7dc8b61c822 // indirect
-	github.com/oschwald/maxminddb-golang v1.13.1 // indirect
 	github.com/panjf2000/ants/v2 v2.10.0 // indirect
 	github.com/patrickmn/go-cache v2.1.1-0.20191004192108-46f407853014+incompatible // indirect
 	github.com/pmezard/go-difflib v1.0.0 // indirect
